@@ -33,6 +33,11 @@ CHECKS = {
    "Complete sweeps of the 5-byte header fields (all declared lengths, all types, all versions) at every characteristic cut point, every prefix of boundary-length records, and every payload string up to the stated length per content type; the streaming contract (Incomplete iff strict prefix, exact Needed), the cap and exact consumption are decided for each.",
    "Trusted: the 10-line reference framing in c02.rs and the strict walker for the envelope-only parsers. Payload space is bounded (alphabet and length reported in the evidence); quick tier thins the (type x length) product as stated in its rule.",
    "DESIGN.md section 3 C02"),
+ "C03": (True, "exploration",
+   "bounded-exhaustive small-scope enumeration: catalogue of records x all combinations of <= d deviations, complete 1-D sweeps, all payload strings over positional alphabets, against a strict reference record walker",
+   "Every record of a small-scope catalogue (all content types, 1..4 messages) with every single (quick) / double (thorough) deviation, all 256 content types, all 65536 alerts, all heartbeat types and every payload string up to the stated length is parsed one-step and two-step and compared with an independent strict decoder (values with slice positions, consumption, rejection rules) and with each other.",
+   "Trusted: the strict walkers (vcommon/src/reference/wire.rs, DESIGN appendix D), calibrated on every run against the undeviated catalogue. Inputs the grammar leaves open are classified Unspecified and only checked for agreement between one-step and two-step parsing.",
+   "DESIGN.md section 3 C03, appendix D"),
 }
 PENDING_REASON = "check not built yet in this round (work in progress; see DESIGN.md appendix C for the build order)"
 
